@@ -589,6 +589,13 @@ class Interp:
 
     ev_BoolBinopResultNode = _arg
 
+    def ev_CondExprNode(self, node, env):
+        """`a if test else b`: only the selected operand is evaluated (C semantics of ?:); a symbolic test forks the path"""
+        t = self.ev(node.condition, env)
+        if isinstance(t, SVal):
+            t = bool(t)            # forks through the explorer
+        return self.ev(node.true_val, env) if t else self.ev(node.false_val, env)
+
     def ev_PrimaryCmpNode(self, node, env):
         a = self.ev(node.operand1, env)
         b = self.ev(node.operand2, env)
